@@ -33,8 +33,8 @@ func propC20(c *Ctx) {
 		ln := "builtin:len($1)"
 		buf := "$0.writeBuf@1"
 		big := "!(" + ln + " < 65536)"
-		mid := []string{"(125 < " + ln + ")", "(" + ln + " < 65536)"}
-		small := []string{"!(125 < " + ln + ")", "(" + ln + " < 65536)"}
+		mid := []string{"!(" + ln + " < 126)", "(" + ln + " < 65536)"}
+		small := []string{"(" + ln + " < 126)", "(" + ln + " < 65536)"}
 		ps := "phi{(2 + 2) | (2 + 8) | 2}"
 		c.CheckSites(x1, fn, []SiteSpec{
 			{Kind: "store", Target: "websocket.Conn.writeBuf", Args: []string{"$0", "make([]byte, (10 + " + ln + "), (10 + " + ln + "))"}, Guards: []string{}, Exact: true, N: 1, Why: "a FRESH buffer for every frame, unconditionally: the TCP endpoint keeps the written slice by reference (SlicePayload.Get does not copy)"},
